@@ -196,6 +196,13 @@ func runCase(c *eng.Ctx, idx int, sp *Spec, procBase int) bool {
 	settle(procBase)
 	e := newEnv(c, idx, sp)
 	e.baseG = runtime.NumGoroutine()
+	switch {
+	case e.baseG > procBase+2000:
+		e.contaminated = true // dumps would dominate the run; the leak was reported by the cases that caused it
+	case e.baseG > procBase:
+		d := dumpGoroutines()
+		e.baseGodi, e.baseProp = d.godi, d.prop
+	}
 	var stats []cpStats
 	if sp.Kind == "fault" {
 		stats = e.runFault()
